@@ -406,3 +406,55 @@ fn c04_5a_copy_to_bulk_contract() {
         drop(Box::from_raw(b));
     }
 }
+
+fn spin_expected(_b: &crossbeam_utils::Backoff) {
+    kani::cover!(true, "taker spins on a locked head");
+    kani::assume(false);
+}
+
+/// a queue whose head word carries the bit-63 marker: a taker that claimed the last slot of a block / a whole batch
+/// is still resolving it (it will publish the new head with a plain store)
+fn queue_with_locked_head() -> (Steal<u8>, Local<u8>) {
+    let (s, mut l) = local::<u8>();
+    l.push_back(1);
+    l.push_back(2);
+    let q = &l.0;
+    let head = q.head.0.load(Ordering::Relaxed);
+    q.head.0.store((head as usize | (1 << 63)) as *mut BlockNode<u8>, Ordering::Relaxed);
+    (s, l)
+}
+
+//@ obligation: C04.4a
+//@ kind: K3
+//@ complete: yes
+//@ timeout: 900
+//@ mem: 28
+//@ functions: spmc::Queue::local_pop
+//@ statement: while the head word carries the bit-63 marker (another taker is resolving the last slot of a block or a claimed batch) the OWNER's pop
+//@ statement: takes nothing: its compare-exchange must fail against the marked word and it spins — it neither returns a task nor None
+#[kani::proof]
+#[kani::stub(std::thread::sleep, sleep_never)]
+#[kani::stub(crossbeam_utils::Backoff::spin, spin_expected)]
+#[kani::unwind(3)]
+fn c04_4a_owner_pop_respects_the_head_marker() {
+    let (_s, mut l) = queue_with_locked_head();
+    let _ = l.pop();
+    assert!(false, "[C04.4-owner-respects-marker] the owner's pop went through although the head is marked as being resolved by another taker: the same task is handed out twice");
+}
+
+//@ obligation: C04.4b
+//@ kind: K3
+//@ complete: yes
+//@ timeout: 900
+//@ mem: 28
+//@ functions: spmc::Queue::pop
+//@ statement: likewise a stealer's single pop takes nothing while the head is marked
+#[kani::proof]
+#[kani::stub(std::thread::sleep, sleep_never)]
+#[kani::stub(crossbeam_utils::Backoff::spin, spin_expected)]
+#[kani::unwind(3)]
+fn c04_4b_stealer_pop_respects_the_head_marker() {
+    let (s, _l) = queue_with_locked_head();
+    let _ = s.0.pop();
+    assert!(false, "[C04.4-stealer-respects-marker] a stealer's pop went through although the head is marked as being resolved by another taker");
+}
